@@ -3,6 +3,7 @@ package c10
 import (
 	"encoding/json"
 	"fmt"
+	"math"
 	"os"
 	"path/filepath"
 	"sort"
@@ -601,6 +602,91 @@ func TestManyKeys(t *testing.T) {
 		}
 		evid.Case(fmt.Sprintf("manykeys/%d/%d/%s", nf, nops, path[0]), true, fmt.Sprintf("many-keys/%d", nf))
 	})
+}
+
+// TestInputKinds: the input maps may hold numbers of any Go kind; InitPt normalises them, and the index entry agrees
+// with what the output then holds (a value at the edge of a kind's range included).
+func TestInputKinds(t *testing.T) {
+	vals := map[string]any{
+		"i8": int8(-128), "i16": int16(32767), "i32": int32(-2147483648), "iplain": int(-7), "i64min": int64(math.MinInt64), "i64max": int64(math.MaxInt64),
+		"u8": uint8(255), "u16": uint16(65535), "u32": uint32(4294967295), "uplain": uint(7), "u64small": uint64(12), "u64half": uint64(1) << 63, "u64half1": uint64(1)<<63 - 1, "u64max": uint64(math.MaxUint64), "ubig": uint(1) << 63,
+		"f32": float32(1.5), "f32big": float32(3.4e38), "f64": 2.5, "fnan": math.NaN(), "finf": math.Inf(-1), "b": true, "s": "str", "n": nil,
+	}
+	mk := func() *input.Point {
+		f := map[string]any{}
+		for k, v := range vals {
+			f[k] = v
+		}
+		return impl.NewPoint("m", map[string]string{"tg": "v"}, f)
+	}
+	check := func(p *input.Point, what string) {
+		for k, v := range p.Fields {
+			switch v.(type) {
+			case nil, bool, int64, float64, string:
+			default:
+				rk.Fail(t, "kinds", replay{Ops: []string{what}}, "%s: field %q holds a %T (%v): fields are int64, float64, bool, string or nil", what, k, v, v)
+			}
+			gv, gt, gerr := p.Get(k)
+			if gerr != nil || probe.Render(gv) != probe.Render(v) || gt != dtypeOf(v) {
+				rk.Fail(t, "kinds", replay{Ops: []string{what}}, "%s: Point.Get(%q) = %s typed %s (err %v), the output point holds field %s", what, k, probe.Render(gv), gt, gerr, probe.Render(v))
+			}
+		}
+	}
+	n := 0
+	p := mk()
+	check(p, "InitPt")
+	// the values a script sees, and what the usual operations make of them
+	var names []string
+	for k := range vals {
+		names = append(names, k)
+	}
+	sort.Strings(names)
+	for _, k := range names {
+		for _, opText := range []string{"probe(\"r\", %s)", "add_key(copy, %s)", "rename(moved, %s)", "cast(%s, \"str\")", "cast(%s, \"int\")", "set_tag(%s)", "x = 0 - %s\nadd_key(neg, x)", "drop_key(%s)"} {
+			p := mk()
+			txt := fmt.Sprintf(opText, k)
+			sig := &probe.Sig{}
+			if _, crash := impl.RunV1(load(t, txt), p, sig); crash != nil {
+				rk.Fail(t, "kinds", replay{Ops: []string{txt}}, "operation panicked on an input field of kind %T: %s", vals[k], crash.Value)
+			}
+			if msg := invariantsAllKeys(t, p); msg != "" {
+				rk.Fail(t, "kinds", replay{Ops: []string{txt}}, "input field %s of kind %T, after %q: %s", k, vals[k], txt, msg)
+			}
+			if strings.HasPrefix(opText, "probe") && len(sig.Trace) == 1 {
+				if got, want := sig.Trace[0].Vals[0], probe.Render(p.Fields[k]); got != want {
+					rk.Fail(t, "kinds", replay{Ops: []string{txt}}, "a script reads the input field %s (kind %T) as %s, the point holds %s", k, vals[k], got, want)
+				}
+			}
+			evid.Case("kinds/"+txt, true, "input-kinds")
+			n++
+		}
+	}
+	evid.Exhaustive("input field kinds x operations", n)
+}
+
+// invariantsAllKeys: the generic part of the invariants for every key of the output.
+func invariantsAllKeys(t rk.Failer, p *input.Point) string {
+	for k, v := range p.Tags {
+		if _, both := p.Fields[k]; both {
+			return fmt.Sprintf("key %q is both a tag and a field", k)
+		}
+		gv, gt, gerr := p.Get(k)
+		if gerr != nil || gt != ast.String || gv != any(v) {
+			return fmt.Sprintf("Point.Get(%q) = %s/%s/%v, the output point holds tag %q", k, probe.Render(gv), gt, gerr, v)
+		}
+	}
+	for k, v := range p.Fields {
+		switch v.(type) {
+		case nil, bool, int64, float64, string:
+		default:
+			return fmt.Sprintf("field %q holds a %T", k, v)
+		}
+		gv, gt, gerr := p.Get(k)
+		if gerr != nil || probe.Render(gv) != probe.Render(v) || gt != dtypeOf(v) {
+			return fmt.Sprintf("Point.Get(%q) = %s typed %s (err %v), the output point holds field %s", k, probe.Render(gv), gt, gerr, probe.Render(v))
+		}
+	}
+	return ""
 }
 
 func TestRandomSequences(t *testing.T) {
